@@ -67,14 +67,18 @@ OpValidated(o) == ~Protected(o.path) /\ ((CheckFrom /\ UsesFrom(o.kind) /\ o.spe
 Op(k, p, f) == [kind |-> k, path |-> p, from |-> f, spell |-> "plain"]
 \* member names / operation names in another letter case: "From" for from, "Op" for op, "Move" for move.  JSON member
 \* names and RFC 6902 operation names are case sensitive: such an operation has no from / no op / an unknown op
-Respelled ==
-    {[kind |-> k, path |-> p, from |-> f, spell |-> sp] : k \in {"move", "copy"}, p \in {"/other", "/publicKey/-", "/service/0/serviceEndpoint"},
-                                                       f \in {"/publicKey/0", "/service/0", "/other/a"}, sp \in {"From", "Op", "Kind"}}
-    \cup {[kind |-> k, path |-> p, from |-> p, spell |-> sp] : k \in {"add", "remove", "replace"}, p \in {"/publicKey/0", "/service", "/other/a"},
-                                                            sp \in {"Op", "Kind"}}
-AllOps == {Op(k, p, p) : k \in Kinds \ {"move", "copy"}, p \in Ptrs}
-            \cup {Op(k, p, f) : k \in {"move", "copy"}, p \in Ptrs, f \in Ptrs}
-            \cup Respelled
+\* (nested single-variable comprehensions: the form the proof system's back ends can open - proofs/GuardProofs.tla)
+RespelledFrom(k, p, f) == {[kind |-> k, path |-> p, from |-> f, spell |-> sp] : sp \in {"From", "Op", "Kind"}}
+RespelledOp(k, p) == {[kind |-> k, path |-> p, from |-> p, spell |-> sp] : sp \in {"Op", "Kind"}}
+RespelledMoves ==
+    UNION {UNION {UNION {RespelledFrom(k, p, f) : f \in {"/publicKey/0", "/service/0", "/other/a"}} :
+                  p \in {"/other", "/publicKey/-", "/service/0/serviceEndpoint"}} : k \in {"move", "copy"}}
+RespelledOthers ==
+    UNION {UNION {RespelledOp(k, p) : p \in {"/publicKey/0", "/service", "/other/a"}} : k \in {"add", "remove", "replace"}}
+Respelled == RespelledMoves \cup RespelledOthers
+OpsWithPath == UNION {{Op(k, p, p) : p \in Ptrs} : k \in Kinds \ {"move", "copy"}}
+OpsWithFrom == UNION {UNION {{Op(k, p, f) : f \in Ptrs} : p \in Ptrs} : k \in {"move", "copy"}}
+AllOps == OpsWithPath \cup OpsWithFrom \cup Respelled
 
 Benign == Op("add", "/other/a", "/other/a")
 
